@@ -451,6 +451,80 @@ def load_module(prop):
     return importlib.import_module('harness.props.' + prop.lower())
 
 
+def model_map_report(ctx, mod):
+    """Which callables of the anchored source files are inside the Lean model (evidence only, never a verdict).
+
+    A harness module may declare MODEL_MAP = {'skyllh/core/x.py::Class.method': ['LeanNamespace.def', ...], ...}.  Every key is
+    looked up in the *current* source (ast): a key that no longer exists is reported as a note (the function was renamed or
+    removed: its Lean definitions are then tied to the code only through the correspondence run).  Every Lean name is looked up in
+    the local Lean files the property theorems import.  The evidence lists the anchored callables inside / outside the model with
+    their source line counts, so that "what is modelled rather than verified, and what is neither" is regenerated on every run."""
+    import ast
+    mm = getattr(mod, 'MODEL_MAP', None)
+    if not mm:
+        return
+    try:
+        with open(os.path.join(VERIF, 'properties.jsonl')) as f:
+            props = [json.loads(l) for l in f if l.strip()]
+        anchors = [x for x in props if x['id'] == ctx.prop][0]['anchors']['files']
+    except Exception:  # noqa
+        anchors = []
+    files = sorted(set([a for a in anchors if a.endswith('.py')] + [k.split('::')[0] for k in mm]))
+    table = {}
+    for rel in files:
+        path = os.path.join(REPO, rel)
+        if not os.path.isfile(path):
+            continue
+        try:
+            with open(path) as f:
+                tree = ast.parse(f.read())
+        except SyntaxError:
+            continue
+
+        def walk(node, prefix):
+            for ch in node.body:
+                if isinstance(ch, (ast.FunctionDef, ast.AsyncFunctionDef)):
+                    table['%s::%s%s' % (rel, prefix, ch.name)] = (ch.end_lineno or ch.lineno) - ch.lineno + 1
+                elif isinstance(ch, ast.ClassDef):
+                    walk(ch, prefix + ch.name + '.')
+        walk(tree, '')
+    lean_src = ''
+    for p in ctx.proof.get('files', []) or []:
+        try:
+            with open(os.path.join(LEAN_DIR, p)) as f:
+                lean_src += f.read() + '\n'
+        except OSError:
+            pass
+    gone, lean_missing = [], []
+    for k, names in mm.items():
+        if k not in table:
+            gone.append(k)
+        for n in names:
+            last = n.split('.')[-1]
+            if lean_src and not re.search(r'\b(def|abbrev|structure|inductive|theorem|instance)\s+(\S*\.)?%s\b' % re.escape(last), lean_src):
+                lean_missing.append(n)
+    if gone:
+        ctx.note('MODEL_MAP names callables that no longer exist in the current source (renamed or removed; their Lean definitions '
+                 'are tied to the code only through the correspondence): %s' % ', '.join(sorted(gone)))
+    if lean_missing:
+        ctx.note('MODEL_MAP names Lean definitions not found in the imported model files: %s' % ', '.join(sorted(set(lean_missing))))
+    inside = sorted(k for k in mm if k in table)
+    outside = sorted(k for k in table if k not in mm and not k.split('::')[1].split('.')[-1].startswith('__str__'))
+    ctx.extra['model_map'] = {
+        'anchored_py_files': files,
+        'callables_in_anchored_files': len(table),
+        'callables_inside_lean_model': len(inside),
+        'source_lines_inside_lean_model': sum(table[k] for k in inside),
+        'source_lines_in_anchored_callables': sum(table.values()),
+        'inside': {k: mm[k] for k in inside},
+        'outside_model': outside[:400],
+        'stale_keys': sorted(gone),
+        'lean_names_not_found': sorted(set(lean_missing)),
+        'meaning': 'inside = the callable has an executable Lean counterpart that the property theorems are about and that is compared '
+                   'with it on every run; outside = only exercised through callers, oracles, or not at all',
+    }
+
+
 def run_known_findings(ctx, mod):
     """Replay each listed open finding on the current tree (prints KNOWN-FINDING when it still fails)."""
     oracles = getattr(mod, 'ORACLES', {})
@@ -520,6 +594,7 @@ def main(argv=None):
         else:
             ctx.proof['build_ok'] = True
         run_known_findings(ctx, mod)
+        model_map_report(ctx, mod)
         mod.run(ctx)
         return ctx.finish()
     except MachineryError as e:
